@@ -85,6 +85,27 @@ func (c c15Case) String() string {
 
 var errTail = errors.New("injected stream failure")
 
+// hdrBytesOfLast: how many bytes of the last (incomplete) frame header the stream supplied.
+func hdrBytesOfLast(stream []byte, frames []scanFrame) int {
+	off := 0
+	for _, f := range frames {
+		if !f.hdrComplete {
+			return len(stream) - off
+		}
+		// header length of this frame as encoded: look at the marker byte
+		switch stream[off] & 0x7f {
+		case 126:
+			off += 3
+		case 127:
+			off += 9
+		default:
+			off++
+		}
+		off += len(f.avail)
+	}
+	return 0
+}
+
 func isUnexpectedEnd(err error) bool {
 	return webtrans.IsCloseError(err, webtrans.CloseAbnormalClosure) || errors.Is(err, io.ErrUnexpectedEOF)
 }
@@ -197,8 +218,8 @@ func runC15(cs c15Case, wts *wt.Server) (viol string, stats map[string]bool) {
 			if r != nil {
 				return fmt.Sprintf("NextReader #%d returned an error and a reader", i), stats
 			}
-			if !cs.TailErr && !atEnd && !isUnexpectedEnd(err) && err != io.EOF {
-				return fmt.Sprintf("NextReader #%d: stream ends inside a frame header, error is %v", i, err), stats
+			if !cs.TailErr && !atEnd && !isUnexpectedEnd(err) {
+				return fmt.Sprintf("NextReader #%d: stream ends inside a frame header (%d byte(s) of it arrived), error is %v, want an unexpected-end error", i, hdrBytesOfLast(cs.Stream, frames), err), stats
 			}
 			if !atEnd {
 				stats["truncated-header"] = true
